@@ -215,6 +215,10 @@ func guarded(c *Ctx, id string, body func()) {
 			c.ruleDocs[rule] = "the anchors shared by the rules of this property resolve"
 			if a, ok := r.(anchorErr); ok {
 				c.add(rule, "anchor:"+a.what, "", vAnchor, "the construct that carried this guarantee is gone or renamed: "+a.what+" (nothing can be concluded; not a behavioural claim)")
+				// a shared anchor is gone: apply the rules that do not read it (partial.go)
+				if !c.tolerant && !c.inRule {
+					partialRun(c, id, body)
+				}
 				return
 			}
 			c.add(rule, "panic", "", vPanic, fmt.Sprint(r))
